@@ -775,7 +775,8 @@ def check_c07(tier, t0):
             vio.append({"sig": sig, "replay": {"kind": b.get("kind"), "input": b.get("input"), "meta": b.get("meta"), "deviation": d}})
     log("[C07] %d adversarial sessions, %d calls, %d trace lines explained by Session.tla, %d sessions with a non-total answer; "
         "worst time exponent %.2f" % (s["inputs"], s["calls"], tv["lines"], len(flagged), s["worst_exponent"]))
-    os.remove(traces)
+    if tier == "thorough":
+        os.remove(traces)
     cov = {
         "states": tv["states"] + mcw["distinct"] + mcf["distinct"], "transitions": tv["generated"] + mcw["generated"] + mcf["generated"],
         "traces_validated_against_impl": s["inputs"], "trace_events_explained": tv["lines"],
